@@ -13,9 +13,9 @@ pkgs=""
 for d in $demo; do if [ -d "$d" ]; then pkgs="$pkgs ./$d..."; else pkgs="$pkgs ./$(dirname $d)/"; fi; done
 ( go build ./... && go test -vet=off -count=1 $(go list ./... | grep -v /demo) 2>&1 | grep -v "no test files" | grep -vE "^ok" | head -20 ) > /tmp/mut/confirm_$P.log 2>&1
 echo "with change, full suite (failures listed, demo expected):"; grep -E "^(FAIL|---)" /tmp/mut/confirm_$P.log | head -8
-git stash -q
+git apply -R $OUT/patch.diff || echo "cannot reverse patch"
 echo "without change, demo packages:"; go test -vet=off -count=1 $pkgs 2>&1 | grep -v "no test files" | grep -E "^(ok|FAIL|---)" | head -5
-git stash pop -q
+git apply $OUT/patch.diff
 echo "== running checks [$CHECKS] with the change applied to /repo"
 cd /repo && git apply $OUT/patch.diff || { echo "patch does not apply"; exit 1; }
 cd /verif
